@@ -11,21 +11,21 @@ Local Open Scope Z_scope.
    serial branch below.) *)
 Record fecfg := FE { fe_n : Z; fe_N : Z; fe_maxThreads : Z; fe_wait : bool }.
 
-Inductive fe_path := FSerial | FPar | FDivZero.
+Inductive fe_path := FSerial | FPar.
 
 (* int32_t maxThreads = std::max<int32_t>(options.maxThreads, 1);
    ssize_t numThreads = std::min<ssize_t>(numPoolThreads() + options.wait, maxThreads);
-   numThreads = std::min<ssize_t>(numThreads, n); *)
+   numThreads = std::min<ssize_t>(numThreads, n);
+   numThreads = std::max<ssize_t>(1, numThreads);      (the repair of foreach-zero-threads-nowait-div0: before it a
+                                                        zero-thread pool with wait=false gave numThreads = 0 and
+                                                        staticChunkSize(n, 0) divided by zero) *)
 Definition fe_limit (c : fecfg) : Z := Z.max (wrap_s 32 (fe_maxThreads c)) 1.
 Definition fe_numThreads (c : fecfg) : Z :=
-  Z.min (Z.min (fe_N c + b2z (fe_wait c)) (fe_limit c)) (fe_n c).
+  Z.max 1 (Z.min (Z.min (fe_N c + b2z (fe_wait c)) (fe_limit c)) (fe_n c)).
 
-(* if (!n || !options.maxThreads || isParForRecursive) serial;  then detail::staticChunkSize(n, numThreads)
-   which divides by numThreads (assert(chunks > 0) is compiled out with NDEBUG) *)
+(* if (!n || !options.maxThreads || isParForRecursive) serial;  else detail::staticChunkSize(n, numThreads) *)
 Definition fe_decide (c : fecfg) : fe_path :=
-  if (fe_n c =? 0) || (wrap 32 (fe_maxThreads c) =? 0) then FSerial
-  else if fe_numThreads c =? 0 then FDivZero
-  else FPar.
+  if (fe_n c =? 0) || (wrap 32 (fe_maxThreads c) =? 0) then FSerial else FPar.
 
 (* chunk i of nt: [offset, offset + thisChunkSize) as computed by for_each_n_schedule (random access) *)
 Definition fe_bounds (n nt : Z) : list (Z * Z) :=
@@ -45,22 +45,16 @@ Definition fe_calls (wait : bool) (nt : Z) (b : list (Z * Z)) : list call :=
   map (fun x : nat * (Z * Z) => let '(i, (lo, hi)) := x in CALL (fe_who wait nt (Z.of_nat i)) 0 0 lo hi)
       (combine (seq 0 (length b)) b).
 
-(* None = the call does not return normally (integer division by zero) *)
-Definition fe_plan (c : fecfg) : option (list call) :=
+Definition fe_plan (c : fecfg) : list call :=
   match fe_decide c with
-  | FSerial => Some [CALL CallerPre 0 0 0 (fe_n c)]
-  | FDivZero => None
-  | FPar => Some (fe_calls (fe_wait c) (fe_numThreads c) (fe_bounds (fe_n c) (fe_numThreads c)))
+  | FSerial => [CALL CallerPre 0 0 0 (fe_n c)]
+  | FPar => fe_calls (fe_wait c) (fe_numThreads c) (fe_bounds (fe_n c) (fe_numThreads c))
   end.
 
 (* how many calls of the plan apply the function to element i *)
 Definition covers (a : call) (i : Z) : Z := if (c_lo a <=? i) && (i <? c_hi a) then 1 else 0.
 Fixpoint visit_count (p : list call) (i : Z) : Z :=
   match p with [] => 0 | a :: r => covers a i + visit_count r i end.
-
-(* domain of the finding: zero-thread pool, wait=false, something to do *)
-Definition c15_dom (c : fecfg) : bool :=
-  (fe_N c =? 0) && negb (fe_wait c) && (0 <? fe_n c) && negb (wrap 32 (fe_maxThreads c) =? 0).
 
 (* runner of element i according to the plan: -1 = calling thread, j = scheduled closure j, -9 = nobody *)
 Fixpoint runner_of (p : list call) (i : Z) : Z :=
